@@ -1,0 +1,64 @@
+//go:build verif
+// +build verif
+
+package backend
+
+import (
+	"net"
+	"time"
+
+	"github.com/XiaoMi/Gaea/mysql"
+	"github.com/XiaoMi/Gaea/util"
+	"github.com/XiaoMi/Gaea/util/sync2"
+)
+
+// Add-only exports for the verification harness (property C39, build tag verif).
+
+// VerifC39NewDirectConn wraps an established transport into a DirectConnection
+// that is taken to be authenticated already (no handshake is performed).
+func VerifC39NewDirectConn(c net.Conn, addr string) *DirectConnection {
+	return &DirectConnection{
+		conn:             mysql.NewConn(c),
+		addr:             addr,
+		user:             "verif",
+		charset:          "utf8mb4",
+		collation:        mysql.CollationNames[mysql.Charsets["utf8mb4"]],
+		defaultCharset:   "utf8mb4",
+		defaultCollation: mysql.CollationNames[mysql.Charsets["utf8mb4"]],
+		capability:       mysql.ClientProtocol41 | mysql.ClientSecureConnection | mysql.ClientTransactions | mysql.ClientLongFlag,
+		status:           mysql.ServerStatusAutocommit,
+		closed:           sync2.NewAtomicBool(false),
+		sessionVariables: mysql.NewSessionVariables(),
+	}
+}
+
+// VerifC39NewPool returns a real connection pool whose connections are
+// DirectConnections over the transports handed out by dial; made (if not nil)
+// is told about every DirectConnection created.
+func VerifC39NewPool(addr string, dial func() net.Conn, made func(*DirectConnection)) ConnectionPool {
+	cp := NewConnectionPool(addr, "verif", "", "", 8, 16, time.Hour, "utf8mb4",
+		mysql.CollationNames[mysql.Charsets["utf8mb4"]], 0, "", "", time.Second).(*connectionPoolImpl)
+	cp.connections, _ = util.NewResourcePool(func() (util.Resource, error) {
+		dc := VerifC39NewDirectConn(dial(), addr)
+		if made != nil {
+			made(dc)
+		}
+		return &pooledConnectImpl{directConnection: dc, pool: cp}, nil
+	}, 8, 16, time.Hour)
+	return cp
+}
+
+// VerifC39NewPooled wraps a DirectConnection into a pooled connection of pool
+// (which must come from VerifC39NewPool) without going through Get.
+func VerifC39NewPooled(dc *DirectConnection) PooledConnect {
+	return &pooledConnectImpl{directConnection: dc}
+}
+
+// VerifC39Buffered returns how many bytes of the backend's answer the
+// connection has read ahead without consuming (0 once closed).
+func (dc *DirectConnection) VerifC39Buffered() int {
+	if dc.conn == nil {
+		return 0
+	}
+	return dc.conn.VerifBuffered()
+}
